@@ -2,6 +2,7 @@
 #![allow(dead_code, unused_imports)]
 mod evidence;
 mod faults;
+mod httpfront;
 mod known;
 mod model;
 mod ops;
